@@ -118,6 +118,55 @@ func (c *Ctx) writerShape(ru *report.Rule) *writerShape {
 	return w
 }
 
+// jobFieldStores: a is, in the writer loop, a load of a field of the received job; returns the values the log helper
+// stores into that field of the job it was handed (resolve(log, &job): job.publish = entry).
+func (w *writerShape) jobFieldStores(a ssa.Value) []ssa.Value {
+	ld, ok := conversionsOnly(a).(*ssa.UnOp)
+	if !ok || ld.Op != token.MUL {
+		return nil
+	}
+	fa, ok := ld.X.(*ssa.FieldAddr)
+	if !ok || fa.X != ssa.Value(w.recvAlloc) {
+		return nil
+	}
+	var out []ssa.Value
+	for _, b := range w.logFn.Blocks {
+		for _, in := range b.Instrs {
+			st, ok := in.(*ssa.Store)
+			if !ok {
+				continue
+			}
+			fa2, ok := st.Addr.(*ssa.FieldAddr)
+			if ok && fa2.Field == fa.Field && deepStrip(fa2.X) == ssa.Value(w.recvAlloc) {
+				out = append(out, st.Val)
+			}
+		}
+	}
+	return out
+}
+
+// jobFieldHolds: v is, in the log helper, a load of a field of the job it was handed, and that field was assigned val there.
+func (w *writerShape) jobFieldHolds(v ssa.Value, val ssa.Value) bool {
+	ld, ok := v.(*ssa.UnOp)
+	if !ok || ld.Op != token.MUL {
+		return false
+	}
+	fa, ok := ld.X.(*ssa.FieldAddr)
+	if !ok || deepStrip(fa.X) != ssa.Value(w.recvAlloc) {
+		return false
+	}
+	for _, b := range w.logFn.Blocks {
+		for _, in := range b.Instrs {
+			if st, ok := in.(*ssa.Store); ok && st.Val == val {
+				if fa2, ok := st.Addr.(*ssa.FieldAddr); ok && fa2.Field == fa.Field && deepStrip(fa2.X) == ssa.Value(w.recvAlloc) {
+					return true
+				}
+			}
+		}
+	}
+	return false
+}
+
 // queuedLiterals lists the job values fn puts on a channel: sent by fn itself, or handed to a helper of the module
 // that sends that parameter (enqueue(ctx, job)).
 func (c *Ctx) queuedLiterals(fn *ssa.Function) []ssa.Value {
@@ -332,7 +381,7 @@ func checkC02(c *Ctx) {
 			offArg = deepStrip(offArg) // the helper's offset parameter is what the loop passes at the call
 		}
 		if ld, ok := offArg.(*ssa.UnOp); ok && ld.Op == token.MUL {
-			if fa, ok := ld.X.(*ssa.FieldAddr); ok && fa.X == ssa.Value(w.recvAlloc) {
+			if fa, ok := ld.X.(*ssa.FieldAddr); ok && (fa.X == ssa.Value(w.recvAlloc) || deepStrip(fa.X) == ssa.Value(w.recvAlloc)) {
 				// the field must be the one Schedule fills from its offset parameter
 				name := fieldNameOf(fa.X.Type(), fa.Field)
 				for _, lit := range c.queuedLiterals(w.schedule) {
@@ -352,6 +401,25 @@ func checkC02(c *Ctx) {
 				if ex, ok := core.Strip(a).(*ssa.Extract); ok && ex.Tuple == w.logGet.Value() && ex.Index == 0 && isPublishPtr(a.Type()) && cl.Static != nil && c.P.IsModPkg(cl.Static.Pkg.Pkg) {
 					fanOK, fanDetail = true, "fan-out receives Get's publish"
 					w.fanout = cl
+				}
+			}
+		}
+		if !fanOK && w.logFn != w.run {
+			// the helper may complete the job it was handed (job.publish = entry) and leave the fan-out to the loop
+			for _, cl := range core.CallsIn(w.run) {
+				if cl.Static == nil || !c.P.IsModPkg(cl.Static.Pkg.Pkg) || !reachesInstr(w.logSite, cl.Instr) {
+					continue
+				}
+				for _, a := range cl.Common.Args {
+					if !isPublishPtr(a.Type()) {
+						continue
+					}
+					for _, sv := range w.jobFieldStores(a) {
+						if ex, ok := core.Strip(sv).(*ssa.Extract); ok && ex.Tuple == w.logGet.Value() && ex.Index == 0 {
+							fanOK, fanDetail = true, "fan-out receives Get's publish (through the job completed by "+c.fname(w.logFn)+")"
+							w.fanout = cl
+						}
+					}
 				}
 			}
 		}
